@@ -571,7 +571,7 @@ let eval prog genv =
            bind (call0 f g vs st0) (fun pat0 ->
              let (_, st1) = pat0 in Ok ((Normal, en), st1)))
        | SPrint items ->
-         bind (print f items en st) (fun st0 -> Ok ((Normal, en), st0)))
+         bind (print f items [] en st) (fun st0 -> Ok ((Normal, en), st0)))
   and exec_block fuel whole rest en0 en st =
     match fuel with
     | O -> OutOfFuel
@@ -699,23 +699,20 @@ let eval prog genv =
               (match jump_target l r with
                | Some r' -> exec_list f r' en' st0
                | None -> Ok (((Jump l), en'), st0)))))
-  and print fuel items en st =
+  and print fuel items acc en st =
     match fuel with
     | O -> OutOfFuel
     | S f ->
       (match items with
-       | [] -> Ok st
+       | [] ->
+         Ok { store = st.store; nexta = st.nexta; out = (app st.out acc) }
        | p :: r ->
          (match p with
-          | PStr bs ->
-            print f r en { store = st.store; nexta = st.nexta; out =
-              (app st.out bs) }
+          | PStr bs -> print f r (app acc bs) en st
           | PExpr e ->
             bind (eval0 f e en st) (fun pat ->
               let (v, st0) = pat in
-              bind (show_value v) (fun bs ->
-                print f r en { store = st0.store; nexta = st0.nexta; out =
-                  (app st0.out bs) }))))
+              bind (show_value v) (fun bs -> print f r (app acc bs) en st0))))
   in eval0
 
 (** val call :
@@ -968,7 +965,7 @@ let call prog genv =
            bind (call0 f g vs st0) (fun pat0 ->
              let (_, st1) = pat0 in Ok ((Normal, en), st1)))
        | SPrint items ->
-         bind (print f items en st) (fun st0 -> Ok ((Normal, en), st0)))
+         bind (print f items [] en st) (fun st0 -> Ok ((Normal, en), st0)))
   and exec_block fuel whole rest en0 en st =
     match fuel with
     | O -> OutOfFuel
@@ -1096,23 +1093,20 @@ let call prog genv =
               (match jump_target l r with
                | Some r' -> exec_list f r' en' st0
                | None -> Ok (((Jump l), en'), st0)))))
-  and print fuel items en st =
+  and print fuel items acc en st =
     match fuel with
     | O -> OutOfFuel
     | S f ->
       (match items with
-       | [] -> Ok st
+       | [] ->
+         Ok { store = st.store; nexta = st.nexta; out = (app st.out acc) }
        | p :: r ->
          (match p with
-          | PStr bs ->
-            print f r en { store = st.store; nexta = st.nexta; out =
-              (app st.out bs) }
+          | PStr bs -> print f r (app acc bs) en st
           | PExpr e ->
             bind (eval0 f e en st) (fun pat ->
               let (v, st0) = pat in
-              bind (show_value v) (fun bs ->
-                print f r en { store = st0.store; nexta = st0.nexta; out =
-                  (app st0.out bs) }))))
+              bind (show_value v) (fun bs -> print f r (app acc bs) en st0))))
   in call0
 
 (** val alloc_consts :
